@@ -158,6 +158,8 @@ class Model:
         self.span_list = {}
         self.new_units = []
         self.proxy_ambiguous = set()
+        for s, u in self.units():
+            u.toks = [t for t in u.toks if t.kind != "entry"]
         for sect, units in real_spans.items():
             lst = []
             for uid, blocks in units:
@@ -180,6 +182,13 @@ class Model:
                     lst.append(sp)
                     self.spans[key] = sp
             self.span_list[sect] = lst
+        # entry markers: directly in front of the first byte token of every
+        # function entry block (after its labels)
+        for sect, lst in self.span_list.items():
+            for sp in lst:
+                if sp.is_entry and sp.tok_ids and sp.func is not None:
+                    idx = next(i for i, t in enumerate(sp.unit.toks) if t.id == sp.tok_ids[0])
+                    sp.unit.toks.insert(idx, Tok("entry", ("entry", sp.key), func=sp.func, att=sp))
         # end marks: directly after the last byte token of each span
         for sect, lst in self.span_list.items():
             for sp in lst:
@@ -300,6 +309,23 @@ class Model:
                 keep.append(t)
             u.toks = keep
         # function entries: promotion only within the same function
+        for s, u in self.units():
+            keep = []
+            for t in u.toks:
+                if t.kind == "entry" and t.att is sp:
+                    if (not proxy) and nxt is not None and nxt.kind == "code" and nxt.func == t.func and self._adjacent(sp, nxt):
+                        t.att = nxt
+                    elif (not proxy) and nxt is not None and nxt.kind == "data" and self._adjacent(sp, nxt):
+                        # the entry block may survive as a zero-sized block
+                        # (e.g. when it is the module's entry point) and be
+                        # promoted once the data block is deleted as well:
+                        # from here on the promotion is optional
+                        t.att = nxt
+                        t.slid = True
+                    else:
+                        continue
+                keep.append(t)
+            u.toks = keep
         if sp.is_entry and sp.func is not None:
             if (not proxy) and nxt is not None and nxt.kind == "code" and nxt.func == sp.func and self._adjacent(sp, nxt):
                 nxt.is_entry = True
